@@ -240,14 +240,42 @@ class TorchFlowSaveDtype(Contract):
         from contracts.dtypes import dt, ns
         from contracts.io import mk_group
         cfgd = {"None": NONE, "float32": Str("float32"), "float64": Str("float64"), "torch.float64": dt("torch", 64)}[shape["cfg"]]
-        cfg = PyDict({"dims": IV(z3.Int("dims")), "device": Str("cpu"), "dtype": cfgd, "data_transform": NONE, "seed": IV(0)})
+        tr = self._transform_stub(I)
+        cfg = PyDict({"dims": IV(z3.Int("dims")), "device": Str("cpu"), "dtype": cfgd, "data_transform": tr, "seed": IV(0)})
         fl = Obj("TorchModuleStub", {})
         I.reg.handlers["TorchModuleStub.state_dict"] = lambda I2, a, k, n: PyDict({})
-        o = Obj("BaseTorchFlow", {"dtype": dt("torch", shape["actual"]), "device": Str("cpu"), "_flow": fl, "xp": ns("torch")})
-        o.f["config_dict"] = Fn(lambda I2, a, k, n: PyDict(dict(cfg.d)), "config_dict(recorded constructor arguments)")
+        # the real Flow.config_dict runs: it hands out the *recorded constructor arguments themselves* (self._init_args), not a copy
+        o = Obj("BaseTorchFlow", {"dtype": dt("torch", shape["actual"]), "device": Str("cpu"), "_flow": fl, "xp": ns("torch"), "_init_args": cfg})
         root = mk_group("/")
         h5 = Obj("H5File", {"root": root, "mode": Str("a"), "closed": B(False), "path": Str("f.h5")})
-        return Pre(o, [h5], {}, ghost={"root": root, "shape": shape, "h5": h5})
+        return Pre(o, [h5], {}, ghost={"root": root, "shape": shape, "h5": h5, "cfg": cfg, "cfg0": dict(cfg.d), "o": o})
+
+    @staticmethod
+    def _transform_stub(I):
+        tr = Obj("DataTransformStub", {})
+
+        def tr_save(I2, a, k, n):
+            from contracts.io import group_path
+            grp, name = a[1], a[2]
+            root = grp.f["root"] if grp.cls == "H5File" else grp
+            g = group_path(I2, root, name.v, create=True, node=n)
+            g.f["stored_transform"] = a[0]
+            I2.path.event("transform.save", a[0], name.v)
+            return NONE
+        I.reg.handlers["DataTransformStub.save"] = tr_save
+        return tr
+
+    def recorded_config_unchanged(self, I, pre, tag):
+        """saving is repeatable: the flow's recorded constructor arguments are what they were (same keys, same values), and the data transform went to the file"""
+        p, g = I.path, pre.ghost
+        q = self.qual
+        now, was = g["cfg"].d, g["cfg0"]
+        same = set(now) == set(was) and all(now[k] is was[k] for k in was)
+        p.prove(z3.BoolVal(g["o"].f.get("_init_args") is g["cfg"] and same),
+                f"{q}:C13:saving leaves the flow's recorded configuration as it was (the same flow object can be saved again: second snapshot, overwrite, another file) {tag}")
+        grp = g["root"].f["members"].d.get("flow")
+        dtg = grp.f["members"].d.get("data_transform") if grp is not None else None
+        p.prove(z3.BoolVal(dtg is not None and dtg.f.get("stored_transform") is was["data_transform"]), f"{q}:C13:the flow's data transform is stored next to the weights {tag}")
 
     def post(self, I, pre, r):
         p, g = I.path, pre.ghost
@@ -266,6 +294,11 @@ class TorchFlowSaveDtype(Contract):
         enc = back.d.get("dtype") if isinstance(back, PyDict) else None
         ok = isinstance(enc, PyDict) and isinstance(enc.d.get("dtype"), Str) and enc.d["dtype"].v == f"float{sh['actual']}"
         p.prove(z3.BoolVal(ok), f"{q}:C13:C15:the stored configuration names the precision the flow actually uses (float{sh['actual']}), so a reload rebuilds it in that precision {tag}")
+        self.recorded_config_unchanged(I, pre, tag)
+        self.extra_post(I, pre, tag)
+
+    def extra_post(self, I, pre, tag):
+        pass
 
 
 class JaxFlowSaveDtype(TorchFlowSaveDtype):
@@ -278,16 +311,35 @@ class JaxFlowSaveDtype(TorchFlowSaveDtype):
         from contracts.dtypes import dt, ns
         from contracts.io import mk_group
         cfgd = {"None": NONE, "float32": Str("float32"), "float64": Str("float64")}[shape["cfg"]]
-        cfg = PyDict({"dims": IV(z3.Int("dims")), "device": NONE, "dtype": cfgd, "data_transform": NONE, "key": Sym(z3.Const("jax_key", Misc), "key")})
+        tr = self._transform_stub(I)
+        cfg = PyDict({"dims": IV(z3.Int("dims")), "device": NONE, "dtype": cfgd, "data_transform": tr, "key": Sym(z3.Const("jax_key", Misc), "key")})
         assumed(I, "jax.random.key_data / equinox.partition / jax.tree_util.tree_flatten: opaque (the network parameters are outside this contract; none are written here)")
         I.reg.handlers["jax.random.key_data"] = lambda I2, a, k, n: base_arr("key_data", "int", z3.IntVal(2))
-        I.reg.handlers["equinox.partition"] = lambda I2, a, k, n: Tup([Sym(z3.Const("flow_arrays", Misc), "pytree"), Sym(z3.Const("flow_static", Misc), "pytree")])
+        def partition(I2, a, k, n):
+            I2.path.event("eqx.partition", a[0], a[1])
+            return Tup([Sym(z3.Const("flow_arrays", Misc), "pytree"), Sym(z3.Const("flow_static", Misc), "pytree")])
+        I.reg.handlers["equinox.partition"] = partition
         I.reg.handlers["equinox.is_array"] = lambda I2, a, k, n: B(True)
         I.reg.consts["equinox.is_array"] = Sym(z3.Const("eqx_is_array", Misc), "fn")
+        # other leaf filters exist (is_inexact_array: floating-point leaves only, is_array_like, ...): distinct from is_array
+        I.reg.consts["equinox.is_inexact_array"] = Sym(z3.Const("eqx_is_inexact_array", Misc), "fn")
+        I.reg.consts["equinox.is_array_like"] = Sym(z3.Const("eqx_is_array_like", Misc), "fn")
+        I.reg.consts["equinox.is_inexact_array_like"] = Sym(z3.Const("eqx_is_inexact_array_like", Misc), "fn")
         I.reg.handlers["jax.tree_util.tree_flatten"] = lambda I2, a, k, n: Tup([PyList([]), Sym(z3.Const("treedef", Misc), "treedef")])
         o = Obj("FlowJax", {"dtype": dt("np", shape["actual"]), "device": NONE, "_flow": Sym(z3.Const("flowjax_model", Misc), "pytree"), "xp": ns("jax"),
                             "key": Sym(z3.Const("jax_key", Misc), "key")})
-        o.f["config_dict"] = Fn(lambda I2, a, k, n: PyDict(dict(cfg.d)), "config_dict(recorded constructor arguments)")
+        o.f["_init_args"] = cfg
         root = mk_group("/")
         h5 = Obj("H5File", {"root": root, "mode": Str("a"), "closed": B(False), "path": Str("f.h5")})
-        return Pre(o, [h5], {}, ghost={"root": root, "shape": shape, "h5": h5})
+        return Pre(o, [h5], {}, ghost={"root": root, "shape": shape, "h5": h5, "cfg": cfg, "cfg0": dict(cfg.d), "o": o})
+
+    def extra_post(self, I, pre, tag):
+        # every array leaf of the network is a parameter of the density: integer / Boolean leaves (permutations between layers, masks) included
+        p = I.path
+        parts = [e for e in p.events if e[0] == "eqx.partition"]
+        def is_filter(v, name):
+            return (isinstance(v, Sym) and v.e.eq(z3.Const(f"eqx_{name}", Misc))) or getattr(v, "name", None) in (f"equinox.{name}", f"eqx.{name}", name)
+        ok = len(parts) == 1 and is_filter(parts[0][2], "is_array") and isinstance(parts[0][1], Sym) and parts[0][1].e.eq(z3.Const("flowjax_model", Misc))
+        if not ok and parts:
+            tag = f"{tag} (filter used: {parts[0][2]!r})"
+        p.prove(z3.BoolVal(ok), f"{self.qual}:C13:all array leaves of the network are stored (filter equinox.is_array: the random permutations between layers are integer arrays), not only the floating-point ones {tag}")
